@@ -163,6 +163,127 @@ def translate_method(fn):
         raise Untranslatable("no grid / density")
     return t.grid, t.filter, px
 
+
+def translate_dispersion(tree):
+    """Dispersion.get_weights (width convention, degenerate case) and Dispersion._linspace (grid + hard limits) of the
+    current weights.py, statement by statement.  Returns Coq definitions (text)."""
+    fns = {}
+    for node in tree.body:
+        if isinstance(node, ast.ClassDef) and node.name == "Dispersion":
+            for it in node.body:
+                if isinstance(it, ast.FunctionDef):
+                    fns[it.name] = it
+    if "get_weights" not in fns or "_linspace" not in fns:
+        raise Untranslatable("Dispersion.get_weights / _linspace not found")
+
+    def rexpr(e, env):
+        if isinstance(e, ast.Constant) and isinstance(e.value, (int, float)) and not isinstance(e.value, bool):
+            return num(e.value)
+        if isinstance(e, ast.Name) and e.id in env:
+            return env[e.id]
+        if isinstance(e, ast.Attribute) and isinstance(e.value, ast.Name) and e.value.id == "self" and ("self." + e.attr) in env:
+            return env["self." + e.attr]
+        if isinstance(e, ast.UnaryOp) and isinstance(e.op, ast.USub):
+            return "(- %s)" % rexpr(e.operand, env)
+        if isinstance(e, ast.UnaryOp) and isinstance(e.op, ast.UAdd):
+            return rexpr(e.operand, env)
+        if isinstance(e, ast.BinOp) and type(e.op) in (ast.Add, ast.Sub, ast.Mult, ast.Div):
+            op = {ast.Add: "+", ast.Sub: "-", ast.Mult: "*", ast.Div: "/"}[type(e.op)]
+            return "(%s %s %s)" % (rexpr(e.left, env), op, rexpr(e.right, env))
+        raise Untranslatable("expression %s" % ast.unparse(e)[:60])
+
+    def bexpr(e, env):
+        if isinstance(e, ast.BoolOp):
+            op = "||" if isinstance(e.op, ast.Or) else "&&"
+            return "(" + (" %s " % op).join(bexpr(v, env) for v in e.values) + ")"
+        if isinstance(e, ast.BinOp) and isinstance(e.op, ast.BitAnd):
+            return "(%s && %s)" % (bexpr(e.left, env), bexpr(e.right, env))
+        if isinstance(e, ast.Compare):
+            parts, left = [], e.left
+            for op, right in zip(e.ops, e.comparators):
+                is_npts = ast.unparse(left) == "self.npts" or ast.unparse(left) == "npts"
+                if is_npts:
+                    if not (isinstance(op, ast.Lt) and isinstance(right, ast.Constant) and isinstance(right.value, int)):
+                        raise Untranslatable("comparison on npts")
+                    parts.append("(npts <? %d)%%nat" % right.value)
+                else:
+                    a, b = rexpr(left, env), rexpr(right, env)
+                    if isinstance(op, ast.Eq):
+                        parts.append("(Reqb %s %s)" % (a, b))
+                    elif isinstance(op, ast.LtE):
+                        parts.append("(Rleb %s %s)" % (a, b))
+                    elif isinstance(op, ast.GtE):
+                        parts.append("(Rleb %s %s)" % (b, a))
+                    else:
+                        raise Untranslatable("comparison %s" % type(op).__name__)
+                left = right
+            return parts[0] if len(parts) == 1 else "(" + " && ".join(parts) + ")"
+        raise Untranslatable("condition %s" % ast.unparse(e)[:60])
+
+    # ---- get_weights
+    fn = fns["get_weights"]
+    if [a.arg for a in fn.args.args] != ["self", "center", "lb", "ub", "relative"]:
+        raise Untranslatable("get_weights signature")
+    env = {"center": "center", "lb": "lb", "ub": "ub", "self.width": "width"}
+    body = [st for st in fn.body if not (isinstance(st, ast.Expr) and isinstance(st.value, ast.Constant))]
+    if len(body) != 5:
+        raise Untranslatable("get_weights has %d statements" % len(body))
+    st = body[0]      # sigma = self.width * center if relative else self.width
+    if not (isinstance(st, ast.Assign) and ast.unparse(st.targets[0]) == "sigma" and isinstance(st.value, ast.IfExp) and ast.unparse(st.value.test) == "relative"):
+        raise Untranslatable("sigma assignment: %s" % ast.unparse(st))
+    sigma = "(if relative then %s else %s)" % (rexpr(st.value.body, env), rexpr(st.value.orelse, env))
+    st = body[1]      # if not relative: center = 0
+    if not (isinstance(st, ast.If) and ast.unparse(st.test) == "not relative" and not st.orelse and len(st.body) == 1
+            and isinstance(st.body[0], ast.Assign) and ast.unparse(st.body[0].targets[0]) == "center"):
+        raise Untranslatable("centre assignment: %s" % ast.unparse(st)[:80])
+    centre = "(if relative then center else %s)" % rexpr(st.body[0].value, env)
+    st = body[2]      # if sigma == 0 or self.npts < 2: if lb <= center <= ub: return [center],[1.] else: return [],[]
+    if not (isinstance(st, ast.If) and not st.orelse and len(st.body) == 1 and isinstance(st.body[0], ast.If)):
+        raise Untranslatable("degenerate branch: %s" % ast.unparse(st)[:80])
+    env2 = dict(env, sigma="sigma")
+    degen = bexpr(st.test, env2)
+    inner = st.body[0]
+    inside = bexpr(inner.test, env2)
+    def arr(e):
+        if not (isinstance(e, ast.Call) and ast.unparse(e.func) == "np.array" and isinstance(e.args[0], ast.List)):
+            raise Untranslatable("returned array %s" % ast.unparse(e)[:40])
+        return "[" + "; ".join(rexpr(x, env2) for x in e.args[0].elts) + "]"
+    def ret(stmts):
+        if not (len(stmts) == 1 and isinstance(stmts[0], ast.Return) and isinstance(stmts[0].value, ast.Tuple) and len(stmts[0].value.elts) == 2):
+            raise Untranslatable("degenerate return")
+        return "(%s, %s)" % (arr(stmts[0].value.elts[0]), arr(stmts[0].value.elts[1]))
+    deg_in, deg_out = ret(inner.body), ret(inner.orelse)
+    if ast.unparse(body[3]) != "(x, px) = self._weights(center, sigma, lb, ub)" and ast.unparse(body[3]) != "x, px = self._weights(center, sigma, lb, ub)":
+        raise Untranslatable("call of _weights: %s" % ast.unparse(body[3]))
+    if ast.unparse(body[4]) not in ("return (x, px)", "return x, px"):
+        raise Untranslatable("final return: %s" % ast.unparse(body[4]))
+    # ---- _linspace
+    fn = fns["_linspace"]
+    if [a.arg for a in fn.args.args] != ["self", "center", "sigma", "lb", "ub"]:
+        raise Untranslatable("_linspace signature")
+    body = [st for st in fn.body if not (isinstance(st, ast.Expr) and isinstance(st.value, ast.Constant))]
+    texts = [ast.unparse(st) for st in body]
+    if len(body) != 4 or texts[0] not in ("(npts, nsigmas) = (self.npts, self.nsigmas)", "npts, nsigmas = (self.npts, self.nsigmas)", "npts, nsigmas = self.npts, self.nsigmas") or texts[3] != "return x":
+        raise Untranslatable("_linspace body: %s" % texts)
+    envl = {"center": "center", "sigma": "sigma", "lb": "lb", "ub": "ub", "nsigmas": "nsig"}
+    st = body[1]      # x = center + np.linspace(-nsigmas*sigma, +nsigmas*sigma, npts)
+    v = st.value
+    if not (ast.unparse(st.targets[0]) == "x" and isinstance(v, ast.BinOp) and isinstance(v.op, ast.Add) and isinstance(v.right, ast.Call)
+            and ast.unparse(v.right.func) == "np.linspace" and len(v.right.args) == 3 and ast.unparse(v.right.args[2]) == "npts"):
+        raise Untranslatable("_linspace grid: %s" % texts[1])
+    shift = rexpr(v.left, envl)
+    a, b = rexpr(v.right.args[0], envl), rexpr(v.right.args[1], envl)
+    st = body[2]      # x = x[(x >= lb) & (x <= ub)]
+    if not (ast.unparse(st.targets[0]) == "x" and isinstance(st.value, ast.Subscript) and ast.unparse(st.value.value) == "x"):
+        raise Untranslatable("_linspace mask: %s" % texts[2])
+    mask = bexpr(st.value.slice, dict(envl, x="x"))
+    return ["  Definition gen_resolve (relative : bool) (width center : R) : R * R := (%s, %s)." % (centre, sigma),
+            "  Definition gen_degenerate (sigma : R) (npts : nat) : bool := %s." % degen,
+            "  Definition gen_degenerate_result (center lb ub : R) : list R * list R := if %s then %s else %s." % (inside, deg_in, deg_out),
+            "  Definition gen_lin (center sigma nsig : R) (npts : nat) (lb ub : R) : list R :=\n"
+            "    filter (fun x => %s) (map (fun d__ => %s + d__) (linspace ROps %s %s npts))." % (mask, shift, a, b)]
+
+
 def translate(path):
     tree = ast.parse(open(path).read())
     out = {}
@@ -174,6 +295,7 @@ def translate(path):
     missing = set(CLASSES.values()) - set(out)
     if missing:
         raise Untranslatable("classes without _weights: %s" % sorted(missing))
+    out["__dispersion__"] = translate_dispersion(tree)
     return out
 
 
@@ -213,6 +335,13 @@ def gen():
             g = "filter (fun x => %s) (%s)" % (mask, g)
         lines += ["  Definition gen_px_%s (x center sigma lb ub : R) : R := %s." % (dist, px),
                   "  Definition gen_grid_%s (center sigma nsig : R) (npts : nat) (lb ub : R) : list R := %s." % (dist, g), ""]
+    if tr and "__dispersion__" in tr:
+        lines += tr["__dispersion__"] + [""]
+    else:
+        lines += ["  Definition gen_resolve (relative : bool) (width center : R) : R * R := resolve ROps relative width center.",
+                  "  Definition gen_degenerate (sigma : R) (npts : nat) : bool := Reqb sigma 0 || (npts <? 2)%nat.",
+                  "  Definition gen_degenerate_result (center lb ub : R) : list R * list R := if Rleb lb center && Rleb center ub then ([center], [1]) else ([], []).",
+                  "  Definition gen_lin (center sigma nsig : R) (npts : nat) (lb ub : R) : list R := lin ROps center sigma nsig npts lb ub.", ""]
     lines += ["End Bodies.", ""]
     common.write_if_changed(os.path.join(common.THEORIES, "Gen", "C02_bodies.v"), "\n".join(lines))
     return note
